@@ -3,7 +3,7 @@
 import ast
 from fractions import Fraction as F
 
-from .. import bary, roles
+from .. import bary, roles, unionq
 from ..core import AnalysisError
 from ..src import arg_names, unparse
 
@@ -121,6 +121,7 @@ def run(ctx):
     r2.check(okb, "barycentric domain indices", GRID, "barycentric_refinement", bf.lineno, "barycentric domain indices", "domain indices are not repeated 6 times per element")
     # (b) union
     union(ctx)
+    unionq.union_domain_blocks(ctx)
     # (c) adjacency filters and layout
     adjacency(ctx)
     # (d) boundary flags
